@@ -299,7 +299,11 @@ def gen_recv(rng, idx):
             nb += 1; q = r.choice([2, 2, 1])
             s.add(op="bpub", qos=q, msg="x%d" % nb)
             if q == 2 and r.random() < 0.7: s.add(op="wend", ec="ok")          # PUBREC went through; the PUBCOMP write is pending
-            s.add(op="fault", ec=r.choice(["reset", "broken_pipe"]))
+            if r.random() < 0.35:
+                # the pending write is reported successful, but its bytes die with the connection (send buffer)
+                s.add(op="wend", ec="ok", drop=1)
+            else:
+                s.add(op="fault", ec=r.choice(["reset", "broken_pipe"]))
             s.add(op="connack", sp=r.choice([0, 0, 1]))
             if r.random() < 0.5:
                 s.add(op="advance", ms=r.choice([1, 2000, 4000]))
